@@ -21,6 +21,9 @@ type ErrFinding struct {
 	InGo    bool
 }
 
+// AlwaysErr, when set, decides whether a call is an error constructor (never returns nil).
+var AlwaysErr func(info *types.Info, call *ast.CallExpr) bool
+
 // ErrSite is one analysed producing call.
 type ErrSite struct {
 	Call    *ast.CallExpr
@@ -213,6 +216,11 @@ func trackErr(info *types.Info, flow *FlowGraph, def ast.Node, obj types.Object,
 				if v, isVar := info.Uses[id].(*types.Var); isVar && v.Parent() != v.Pkg().Scope() {
 					return KnownNonNilAt(info, flow.Body, s, v), false
 				}
+			}
+			// `return g(...)` with g not an error constructor may return nil (`return it.Close()`,
+			// `return errors.Join(other, …)`): the tracked error is not surfaced by it
+			if c, ok := last.(*ast.CallExpr); ok && AlwaysErr != nil && !AlwaysErr(info, c) {
+				return false, false
 			}
 			return true, false
 		case *ast.AssignStmt:
